@@ -5,8 +5,20 @@ package mimetype
 import (
 	verrors "errors"
 	vio "io"
+	vfs "io/fs"
 	vos "os"
+	vtime "time"
 )
+
+// c05FileInfo describes the modelled file to code that stats it: a regular file of the given size.
+type c05FileInfo struct{ size int64 }
+
+func (c05FileInfo) Name() string        { return "verif-c05" }
+func (i c05FileInfo) Size() int64       { return i.size }
+func (c05FileInfo) Mode() vfs.FileMode  { return 0o644 }
+func (c05FileInfo) ModTime() vtime.Time { return vtime.Time{} }
+func (c05FileInfo) IsDir() bool         { return false }
+func (c05FileInfo) Sys() any            { return nil }
 
 var c05Sentinel = verrors.New("verif: injected read error")
 
@@ -147,6 +159,7 @@ func HC05File() {
 	if vSymbolic() {
 		rd := &c05Reader{data: data, failAt: -1}
 		vFileReader(rd)
+		vFileInfo(vfs.FileInfo(c05FileInfo{size: int64(len(data))}))
 	} else {
 		f, err := vos.CreateTemp("", "verif-c05-*")
 		if err == nil {
